@@ -31,17 +31,19 @@ Prefilled0(s, S) ==
 Prefilled(S) == Prefilled0(Init0, S)
 PrefilledGhost(S) == [Ghost0 EXCEPT !.validated = [k \in Key |-> IF k \in S THEN {1} ELSE {}],
                                     !.last = [k \in Key |-> IF k \in S THEN [kind |-> "put", v |-> 1] ELSE [kind |-> "none", v |-> 0]],
-                                    !.durable = [k \in Key |-> IF k \in S THEN 1 ELSE 0]]
+                                    !.durable = [k \in Key |-> IF k \in S THEN 1 ELSE 0],
+                                    !.lastW = [k \in Key |-> IF k \in S THEN 1 ELSE 0]]
 Init == /\ \E S \in {T \in SUBSET Key : Cardinality(T) <= MaxRecords} :
              /\ st = Prefilled(S) /\ g = PrefilledGhost(S)
              /\ hist = IF Record THEN <<[ev |-> "Prefill", keys |-> S]>> ELSE <<>>
         /\ bad = {} /\ n = 0
 
-Base(ev) == [ev |-> ev, s |-> st, r |-> 0, g |-> g, g2 |-> 0, rb |-> 0, k |-> 0, v |-> 0, i |-> 0, ni |-> 0, rg |-> 0, thr |-> Threshold]
+Base(ev) == [ev |-> ev, s |-> st, r |-> 0, g |-> g, g2 |-> 0, rb |-> 0, k |-> 0, v |-> 0, i |-> 0, ni |-> 0, rg |-> 0, thr |-> Threshold,
+             has |-> {}, addrs |-> {}, tok |-> 0]
 
 Step(x0) ==
     \E r \in ModelResults(x0) :
-       LET x1 == [x0 EXCEPT !.r = r, !.rb = Readback(r.st)]
+       LET x1 == [x0 EXCEPT !.r = r, !.rb = Readback(r.st), !.has = r.st.idx, !.addrs = r.st.idx, !.tok = TypeOk(r.st)]
            g2 == GhostNext(g, x1)
            x == [x1 EXCEPT !.g2 = g2] IN
        /\ st' = r.st
@@ -60,10 +62,11 @@ DoFailTask == /\ WithFail /\ ~\E j \in 1..Len(st.notes) : st.notes[j].kind = "R"
               /\ \E i \in {j \in Runnable(st) : st.tasks[j].kind = "W"} : Step([Base("FailTask") EXCEPT !.i = i])
 DoHandleNote == \E j \in 1..Len(st.notes) : Step([Base("HandleNote") EXCEPT !.ni = j])
 DoGet == Record /\ \E k \in Key : Step([Base("Get") EXCEPT !.k = k])
-DoSetRange == \E r \in 1..NK : st.range = 0 /\ Step([Base("SetRange") EXCEPT !.rg = r])
+\* the range may be set again at any time (also after a restart); NK + 1 = a range beyond every key
+DoSetRange == \E r \in 1..(NK + 1) : st.range # r /\ Step([Base("SetRange") EXCEPT !.rg = r])
 DoCleanup == Step(Base("Cleanup"))
 DoPayment == st.pay < 2 /\ Step(Base("PaymentReceived"))
-DoQuote == Record /\ Step(Base("Quote"))
+DoQuote == Record /\ \E k \in Key : Step([Base("Quote") EXCEPT !.k = k])
 \* crash at any point; the write body in progress (any runnable W) may leave a torn file
 DoRestart == /\ WithCrash /\ ~g.restarted /\ n >= 2
              /\ \E tk \in {0} \cup {st.tasks[i].k : i \in {j \in Runnable(st) : st.tasks[j].kind = "W"}} :
